@@ -225,11 +225,15 @@ class Prov:
                         uniq.append(x)
                 t = uniq[0] if len(uniq) == 1 else ("phi", tuple(uniq))
                 if len(uniq) == 2 and set(uniq) == {("const", True), ("const", False)} and not (1 <= l <= body.argc):
-                    m = self._matches_meaning(ds, depth)
+                    m = self._matches_meaning(ds, depth) if len(ds) == 2 else None
+                    if m is None:
+                        m = self._bool_dnf(l, ds)
                     if m is not None:
                         t = m
                 elif len(uniq) == 2 and len(ds) == 2 and not (1 <= l <= body.argc):
                     m = self._then_some_meaning(ds, uniq, depth)
+                    if m is None:
+                        m = self._short_circuit_meaning(ds, depth)
                     if m is not None:
                         t = m
             ops = self.d.opassign.get(l)
@@ -289,6 +293,80 @@ class Prov:
             if var and var[0]["fields"]:
                 return None          # a variant with payload: `==` would compare the payload too
         return ("call", "core::cmp::PartialEq::eq", "eq", (dt[1], ("agg", adt, vmap[vals[0]], ())))
+
+    def _bool_dnf(self, l, ds):
+        """A bool that is only ever assigned constants (rustc fuses `a || matches!(x, V)` into three constant stores)
+        is the disjunction, over the blocks that store `true`, of the path conditions of those blocks:
+        or(and(lits of block 1), and(lits of block 2), ...). Literals become trees (see _lit_tree)."""
+        body = self.body
+        prog = getattr(getattr(body, "unit", None), "prog", None)
+        if prog is None or not hasattr(body, "blocks") or getattr(self, "_in_dnf", False):
+            return None
+        if not all(d[0] == "assign" and d[1]["k"] == "use" and isinstance(mir.op_const(d[1]["op"]), bool) for (_, _, d) in ds):
+            return None
+        from . import conds as _c
+        self._in_dnf = True
+        try:
+            c = _c.conds(prog, body)
+            disj = []
+            for (bi, si, d) in ds:
+                if mir.op_const(d[1]["op"]) is not True:
+                    continue
+                conj = []
+                for lit in c.must_literals(bi):
+                    lt = _lit_tree(lit, prog, body)
+                    if lt is None:
+                        return None
+                    conj.append(lt)
+                conj.sort(key=repr)
+                term = None
+                for x in conj:
+                    term = x if term is None else ("call", "bool::and", "and", (term, x))
+                disj.append(term if term is not None else ("const", True))
+            if not disj:
+                return ("const", False)
+            out = None
+            for x in disj:
+                out = x if out is None else ("call", "bool::or", "or", (out, x))
+            return out
+        except RecursionError:
+            return None
+        finally:
+            self._in_dnf = False
+
+    def _short_circuit_meaning(self, ds, depth):
+        """`a || b` / `a && b` compile to: switch on a; one arm stores the constant (true / false), the other stores
+        b. Give the merged bool the tree or(a, b) / and(a, b)."""
+        body = self.body
+        if not hasattr(body, "blocks") or len(ds) != 2:
+            return None
+        const_def = other_def = None
+        for (bi, si, d) in ds:
+            if d[0] == "assign" and d[1]["k"] == "use" and isinstance(mir.op_const(d[1]["op"]), bool):
+                const_def = (bi, mir.op_const(d[1]["op"]))
+            else:
+                other_def = (bi, d)
+        if const_def is None or other_def is None:
+            return None
+        cb, cv = const_def
+        preds = [i for i, b in enumerate(body.blocks) if cb in mir.term_succs(b["term"])]
+        if len(preds) != 1:
+            return None
+        t = body.blocks[preds[0]]["term"]
+        if t["k"] != "switch" or body.ty(t["dty"])["s"] != "bool":
+            return None
+        tg = dict((v, x) for v, x in t["targets"])
+        # a || b : a true -> const true ; a && b : a false -> const false
+        if cv is True and t["otherwise"] == cb and 0 in tg:
+            op = "or"
+        elif cv is False and tg.get(0) == cb:
+            op = "and"
+        else:
+            return None
+        a = self.op_tree(t["discr"], depth + 1)
+        (bi, d) = other_def
+        b_ = self.rvalue_tree(d[1], depth + 1) if d[0] == "assign" else self.call_tree(d[1], depth + 1)
+        return ("call", "bool::" + op, op, (a, b_))
 
     def _then_some_meaning(self, ds, trees, depth):
         """`if c { Some(v) } else { None }` gets the tree of `c.then_some(v)` (v must not depend on c being true:
@@ -487,7 +565,11 @@ class Prov:
             if v is not None:
                 return ("agg", "Option", "Some", (("0", v),))
         if c["name"] == "filter" and len(args) == 2:
-            return args[0]
+            payload = _project(_project(args[0], "as Some"), "0")
+            pred = self._closure_value(args[1], [("ref", payload)])
+            if pred is not None:
+                return ("call", "core::option::Option::filter", "filter", (args[0], pred))
+            return None
         return None
 
     def _transparent(self, key, c, args, depth):
@@ -541,6 +623,70 @@ class Prov:
             if st["k"] == "adt":
                 key = "%s::<%s as %s>::%s" % (st["path"].rsplit("::", 1)[0], st["name"], c["trait"], c["name"])
         return ("call", key, c["name"], args)
+
+
+def _lit_tree(lit, prog, body):
+    """a path literal as a boolean tree (None when it has no tree form)"""
+    if lit[0] == "bool":
+        return lit[1] if lit[2] else ("un", "Not", lit[1])
+    if lit[0] == "variant":
+        names = sorted(lit[2])
+        adt = lit[3]
+        if len(names) == 1:
+            return ("call", "core::cmp::PartialEq::eq", "eq", (lit[1], ("agg", adt, names[0], ())))
+        # complement of one variant?
+        for (u, a) in prog.adts.values():
+            if a["name"] == adt and a["enum"]:
+                allv = [v["name"] for v in a["variants"]]
+                rest = [v for v in allv if v not in lit[2]]
+                if len(rest) == 1:
+                    return ("un", "Not", ("call", "core::cmp::PartialEq::eq", "eq", (lit[1], ("agg", adt, rest[0], ()))))
+        return None
+    if lit[0] == "cmp":
+        return ("call", "cmp::" + lit[1], lit[1], (lit[2], lit[3]))
+    return None
+
+
+def forced(t, truth, body, known=None):
+    """atoms forced by the boolean tree t having value `truth`: set of (canon text, bool). or/and/not and the
+    matches!/== trees are interpreted, with unit propagation (and(a,b) false while a is known true forces b false);
+    anything else is an atom."""
+    known = set(known or ())
+    t = strip(t)
+    if t[0] == "un" and t[1] == "Not":
+        return forced(t[2], not truth, body, known)
+    if t[0] == "call" and t[2] in ("or", "and") and t[1].startswith("bool::") and len(t[3]) == 2:
+        x, y = t[3]
+        both = (t[2] == "and") == truth          # and-true / or-false force both sides
+        if both:
+            a = forced(x, truth, body, known)
+            b_ = forced(y, truth, body, known | a)
+            return a | b_
+        # and-false / or-true: one side suffices - unless the other side is already decided the other way
+        def decided(z, val):
+            fz = forced(z, val, body, known)
+            return bool(fz) and fz <= known
+        if decided(x, not truth):
+            return forced(y, truth, body, known)
+        if decided(y, not truth):
+            return forced(x, truth, body, known)
+        return forced(x, truth, body, known) & forced(y, truth, body, known)
+    return {(canon(t, body), truth)}
+
+
+def _forced_old(t, truth, body):
+    """atoms forced by the boolean tree t having value `truth`: set of (canon text, bool). or/and/not and the
+    matches!/== trees are interpreted; anything else is an atom."""
+    t = strip(t)
+    if t[0] == "un" and t[1] == "Not":
+        return forced(t[2], not truth, body)
+    if t[0] == "call" and t[2] in ("or", "and") and t[1].startswith("bool::") and len(t[3]) == 2:
+        a, b_ = forced(t[3][0], truth, body), forced(t[3][1], truth, body)
+        both = (t[2] == "and") == truth          # and-true / or-false force both sides
+        return (a | b_) if both else (a & b_)
+    if t[0] == "call" and t[2] == "not" and len(t[3]) == 1:
+        return forced(t[3][0], not truth, body)
+    return {(canon(t, body), truth)}
 
 
 def _has_phi(t, depth=0):
@@ -1021,6 +1167,8 @@ def lin(t, body, depth=0):
                     return rec(args[1], coef * c, depth + 1)
             if name in _CONV and len(args) == 1:
                 return rec(args[0], coef, depth + 1)
+            if name == "filter" and len(args) == 2 and t[1] == "core::option::Option::filter":
+                return rec(args[0], coef, depth + 1)       # the value it has when it is kept
         if k == "bin":
             op = t[1]
             if op in ("Add", "AddWithOverflow", "AddUnchecked"):
